@@ -30,6 +30,114 @@ from .cmodel import Poly
 FLIP = {"GtE": "LtE", "LtE": "GtE", "Gt": "Lt", "Lt": "Gt", "Eq": "Eq", "NotEq": "NotEq"}
 
 
+def inline_helpers(fn: ast.FunctionDef, resolve, depth=2) -> ast.FunctionDef:
+    """Copy of fn in which `T = H(args)` (optionally `+/- p`) is replaced by the
+    body of the private helper H (resolve(name) -> FunctionDef | None), for the
+    two helper shapes that occur: straight-line body ending in one `return e`,
+    and a guard `if c: return a` followed by `return b`.  Parameters are
+    substituted by the argument expressions, helper locals get fresh names.
+    The exchange analysis then sees the statements the helper stands for."""
+    counter = [0]
+
+    def subst(node, mapping):
+        class T(ast.NodeTransformer):
+            def visit_Name(self, n):
+                if n.id in mapping:
+                    return copy.deepcopy(mapping[n.id])
+                return n
+        return T().visit(copy.deepcopy(node))
+
+    def expand(st):
+        if not (isinstance(st, ast.Assign) and len(st.targets) == 1 and
+                isinstance(st.targets[0], ast.Name)):
+            return None
+        tgt = st.targets[0].id
+        v = st.value
+        shift = None
+        if isinstance(v, ast.BinOp) and isinstance(v.op, (ast.Add, ast.Sub)) and \
+                isinstance(v.left, ast.Call) and isinstance(v.right, ast.Name):
+            shift = (v.op, v.right)
+            v = v.left
+        if not (isinstance(v, ast.Call) and isinstance(v.func, (ast.Attribute, ast.Name))):
+            return None
+        name = v.func.attr if isinstance(v.func, ast.Attribute) else v.func.id
+        h = resolve(name)
+        if h is None or v.keywords:
+            return None
+        params = [a.arg for a in h.args.args]
+        if params and params[0] in ("self", "cls") and len(params) == len(v.args) + 1:
+            params = params[1:]
+        if len(params) != len(v.args):
+            return None
+        body = [b for b in h.body if not (isinstance(b, ast.Expr) and
+                                          isinstance(b.value, ast.Constant))]
+        counter[0] += 1
+        k = counter[0]
+        locs = {n.id for b in body for n in ast.walk(b)
+                if isinstance(n, ast.Name) and isinstance(n.ctx, ast.Store)}
+        mapping = {p_: a for p_, a in zip(params, v.args)}
+        for l in locs:
+            if l not in mapping:
+                mapping[l] = ast.Name(id=f"_h{k}_{l}", ctx=ast.Load())
+        rets = [n for b in body for n in ast.walk(b) if isinstance(n, ast.Return)]
+
+        def asg(e):
+            return ast.Assign(targets=[ast.Name(id=tgt, ctx=ast.Store())],
+                              value=subst(e, mapping), lineno=st.lineno)
+        out = None
+        if len(rets) == 1 and isinstance(body[-1], ast.Return) and body[-1].value is not None:
+            out = [ast.fix_missing_locations(_store_names(subst(b, mapping)))
+                   for b in body[:-1]] + [asg(body[-1].value)]
+        elif len(body) == 2 and isinstance(body[0], ast.If) and not body[0].orelse and \
+                len(body[0].body) == 1 and isinstance(body[0].body[0], ast.Return) and \
+                isinstance(body[1], ast.Return) and len(rets) == 2:
+            out = [ast.If(test=subst(body[0].test, mapping),
+                          body=[asg(body[0].body[0].value)],
+                          orelse=[asg(body[1].value)], lineno=st.lineno)]
+        if out is None:
+            return None
+        if shift is not None:
+            out.append(ast.Assign(
+                targets=[ast.Name(id=tgt, ctx=ast.Store())],
+                value=ast.BinOp(left=ast.Name(id=tgt, ctx=ast.Load()), op=shift[0],
+                                right=shift[1]), lineno=st.lineno))
+        for o in out:
+            for n in ast.walk(o):
+                if not hasattr(n, "lineno"):
+                    n.lineno = st.lineno
+                    n.col_offset = 0
+        return out
+
+    def _store_names(node):
+        # assignment targets that were substituted by Load-context names
+        for n in ast.walk(node):
+            if isinstance(n, (ast.Assign, ast.AugAssign, ast.For)):
+                tg = n.targets if isinstance(n, ast.Assign) else [n.target]
+                for t in tg:
+                    for x in ast.walk(t):
+                        if isinstance(x, ast.Name):
+                            x.ctx = ast.Store()
+        return node
+
+    def walk_block(stmts, d):
+        out = []
+        for st in stmts:
+            ex = expand(st) if d > 0 else None
+            if ex is not None:
+                out.extend(walk_block(ex, d - 1))
+                continue
+            st = copy.copy(st)
+            for fld in ("body", "orelse", "finalbody"):
+                if isinstance(getattr(st, fld, None), list) and \
+                        not isinstance(st, ast.FunctionDef):
+                    setattr(st, fld, walk_block(getattr(st, fld), d))
+            out.append(st)
+        return out
+    new = copy.copy(fn)
+    new.body = walk_block(fn.body, depth)
+    return new
+
+
 class Exchange:
     def __init__(self, fn: ast.FunctionDef, seeds: dict, symmetric=()):
         self.fn = fn
@@ -70,12 +178,24 @@ class Exchange:
                 self._collect(st.body, path + ((st.test, 0),))
                 self._collect(st.orelse, path + ((st.test, 1),))
             elif isinstance(st, ast.For):
-                # iterating the cells of a pair matrix: (i, j) swap with the roles
+                # loop variables are bound names: make them canonical (by nesting
+                # depth and position) so that two loops are compared up to renaming
+                depth = sum(1 for _, arm in path if isinstance(arm, tuple))
                 tg = st.target
-                if isinstance(tg, ast.Tuple) and len(tg.elts) == 2 and \
-                        all(isinstance(x, ast.Name) for x in tg.elts):
-                    self.loop_swaps[id(st)] = (tg.elts[0].id, tg.elts[1].id, st.iter)
-                self._collect(st.body, path + ((st.iter, ("for", id(st))),))
+                names = [x.id for x in (tg.elts if isinstance(tg, ast.Tuple) else [tg])
+                         if isinstance(x, ast.Name)]
+                ren = {nm: f"_lv{depth}_{k}" for k, nm in enumerate(names)}
+
+                class _R(ast.NodeTransformer):
+                    def visit_Name(self, n):
+                        if n.id in ren:
+                            return ast.copy_location(ast.Name(id=ren[n.id], ctx=n.ctx), n)
+                        return n
+                body = [_R().visit(copy.deepcopy(b)) for b in st.body]
+                # iterating the cells of a pair matrix: (i, j) swap with the roles
+                if isinstance(tg, ast.Tuple) and len(names) == 2 == len(tg.elts):
+                    self.loop_swaps[id(st)] = (ren[names[0]], ren[names[1]], st.iter)
+                self._collect(body, path + ((st.iter, ("for", id(st))),))
             elif isinstance(st, ast.While):
                 self._collect(st.body, path + ((st.test, "while"),))
             elif isinstance(st, ast.With):
